@@ -71,6 +71,10 @@ def generate(rng, tier, rep):
             if rng.random() < 0.2:
                 opts += ['--ignore-new-thread', 'worker-1$']
         c = {'layers': [], 'tests': tests, 'options': opts}
+        if rng.random() < 0.3:
+            # an earlier command line parsed in the same interpreter named other thread patterns: they are not this run's
+            c['pre_parse'] = ['--ignore-new-thread', rng.choice(['.', 'worker', '^w', 't-'])]
+            rep.count('earlier option parse with other --ignore-new-thread patterns')
         if rng.random() < 0.2:
             # all tests in a layer whose testSetUp hook replaces a worker thread before every test
             c['layers'] = [{'name': 'La', 'bases': [], 'kind': 'instance', 'hooks': {'testSetUp': ['thread_restart']}}]
@@ -206,7 +210,7 @@ def shrink_candidates(c):
 
 TECHNIQUE = ('Coq proof that snapshot-and-compare reporting equals "started during the test, still alive, not ignored" for every history '
              'without low-level ident reuse (Threads.v, ThreadsFacts.v, P_C19.v) + correspondence check on real runs with recorded idents')
-LEVEL_TEXT = ('Unbounded theorem over all thread histories (any number of tests, threads, APIs, release points) under an explicit, '
+LEVEL_TEXT = ('Counting theorem (ThreadsOnce.v): a thread identity is named by at most as many reports as threads with it were started. Unbounded theorem over all thread histories (any number of tests, threads, APIs, release points) under an explicit, '
               'boolean freshness hypothesis, with the counter-example for the excluded case proved as well; the model is compared with the '
               '"left new threads behind" blocks of real in-process runs whose OS idents are recorded by the world.')
 LEVEL_NOTE = ('OS ident allocation is an oracle recorded per case. Low-level (_thread) threads can only be told apart by ident: reuse of an '
